@@ -8,7 +8,8 @@ git apply "$patch" || { echo "patch does not apply"; exit 2; }
 # evidence files written while a seeded change is applied must not replace the ones of the unchanged tree
 evbak=$(mktemp -d)
 cp -a /verif/evidence/. "$evbak"/ 2>/dev/null
-trap 'git -C /repo checkout -- . ; cp -a "$evbak"/. /verif/evidence/ 2>/dev/null; rm -rf "$evbak"' EXIT
+# (the generated Lean files are rewritten from the unchanged tree again, so that a `lake build` right afterwards does not see the mutant)
+trap 'git -C /repo checkout -- . ; cp -a "$evbak"/. /verif/evidence/ 2>/dev/null; rm -rf "$evbak"; [ -x /verif/extract/extract-bin ] && /verif/extract/extract-bin /repo /verif/lean/RapidModel/Generated >/dev/null 2>&1' EXIT
 for p in "$@"; do
   (cd /verif && VERIF_SEED=${VERIF_SEED:-1} ./check "$p" --tier quick 2>&1 | grep -v "^      " | tail -6 | cut -c1-400)
   echo "== $p exit=${PIPESTATUS[0]}"
